@@ -384,4 +384,95 @@ stepC InvC.s_sRel .sRel =>
     · subst e3; exact absurd ⟨b, k', o2⟩ (hnf t')
     · exact ⟨e1.trans e4.symm, e2.trans e5.symm⟩
 
+/-- the history layer is preserved by every step -/
+theorem InvC.step {scripts : List (List Op)} {s s' : St} {i : Nat} (hA : InvA scripts s) (hB : InvB s)
+    (hC : InvC scripts s) (hs : step s i = some s') : InvC scripts s' := by
+  obtain ⟨p, hp⟩ := step_proc hs
+  cases hpc : p.pc with
+    | idle => simp [Storage.step, hp, hpc] at hs
+    | oAcq => exact InvC.s_oAcq hA hB hC hp hpc hs
+    | oPathsLen => exact InvC.s_oPathsLen hA hB hC hp hpc hs
+    | oPathsAppend => exact InvC.s_oPathsAppend hA hB hC hp hpc hs
+    | oRel => exact InvC.s_oRel hA hB hC hp hpc hs
+    | oOpenW => exact InvC.s_oOpenW hA hB hC hp hpc hs
+    | oPathsGet => exact InvC.s_oPathsGet hA hB hC hp hpc hs
+    | oOpenA => exact InvC.s_oOpenA hA hB hC hp hpc hs
+    | sAcq => exact InvC.s_sAcq hA hB hC hp hpc hs
+    | sIdxLen1 => exact InvC.s_sIdxLen1 hA hB hC hp hpc hs
+    | sIdxLen2 => exact InvC.s_sIdxLen2 hA hB hC hp hpc hs
+    | sIdxExtend => exact InvC.s_sIdxExtend hA hB hC hp hpc hs
+    | sIdxGet => exact InvC.s_sIdxGet hA hB hC hp hpc hs
+    | sTell => exact InvC.s_sTell hA hB hC hp hpc hs
+    | sWriteText => exact InvC.s_sWriteText hA hB hC hp hpc hs
+    | sWriteNl => exact InvC.s_sWriteNl hA hB hC hp hpc hs
+    | sFlush => exact InvC.s_sFlush hA hB hC hp hpc hs
+    | sIdxSet => exact InvC.s_sIdxSet hA hB hC hp hpc hs
+    | sCntRead => exact InvC.s_sCntRead hA hB hC hp hpc hs
+    | sCntWrite => exact InvC.s_sCntWrite hA hB hC hp hpc hs
+    | sWfRead1 => exact InvC.s_sWfRead1 hA hB hC hp hpc hs
+    | sWfRead2 => exact InvC.s_sWfRead2 hA hB hC hp hpc hs
+    | sWfWrite1 => exact InvC.s_sWfWrite1 hA hB hC hp hpc hs
+    | sLoopWf => exact InvC.s_sLoopWf hA hB hC hp hpc hs
+    | sLoopCnt => exact InvC.s_sLoopCnt hA hB hC hp hpc hs
+    | sLoopWf2 => exact InvC.s_sLoopWf2 hA hB hC hp hpc hs
+    | sLoopIdx => exact InvC.s_sLoopIdx hA hB hC hp hpc hs
+    | sLoopWfR => exact InvC.s_sLoopWfR hA hB hC hp hpc hs
+    | sLoopWfW => exact InvC.s_sLoopWfW hA hB hC hp hpc hs
+    | sRelErr => exact InvC.s_sRelErr hA hB hC hp hpc hs
+    | sRel => exact InvC.s_sRel hA hB hC hp hpc hs
+    | gAcq => exact InvC.s_gAcq hA hB hC hp hpc hs
+    | gIdxLen => exact InvC.s_gIdxLen hA hB hC hp hpc hs
+    | gIdxGet => exact InvC.s_gIdxGet hA hB hC hp hpc hs
+    | gRelErr => exact InvC.s_gRelErr hA hB hC hp hpc hs
+    | gRel => exact InvC.s_gRel hA hB hC hp hpc hs
+    | gPathsGet => exact InvC.s_gPathsGet hA hB hC hp hpc hs
+    | gOpenR => exact InvC.s_gOpenR hA hB hC hp hpc hs
+    | gSeek => exact InvC.s_gSeek hA hB hC hp hpc hs
+    | gReadline => exact InvC.s_gReadline hA hB hC hp hpc hs
+    | lCnt => exact InvC.s_lCnt hA hB hC hp hpc hs
+    | cWf => exact InvC.s_cWf hA hB hC hp hpc hs
+    | cCnt => exact InvC.s_cCnt hA hB hC hp hpc hs
+    | iAcq => exact InvC.s_iAcq hA hB hC hp hpc hs
+    | iIdxLen => exact InvC.s_iIdxLen hA hB hC hp hpc hs
+    | iRel => exact InvC.s_iRel hA hB hC hp hpc hs
+    | fAcq => exact InvC.s_fAcq hA hB hC hp hpc hs
+    | fPathsGet => exact InvC.s_fPathsGet hA hB hC hp hpc hs
+    | fRemove => exact InvC.s_fRemove hA hB hC hp hpc hs
+    | fPathsClear => exact InvC.s_fPathsClear hA hB hC hp hpc hs
+    | fIdxClear => exact InvC.s_fIdxClear hA hB hC hp hpc hs
+    | fCntZero => exact InvC.s_fCntZero hA hB hC hp hpc hs
+    | fWfZero => exact InvC.s_fWfZero hA hB hC hp hpc hs
+    | fRel => exact InvC.s_fRel hA hB hC hp hpc hs
+
+theorem InvC.init (presize : Nat) (scripts : List (List Op)) : InvC scripts (start (init presize scripts)) := by
+  have hres : ∀ (i : Nat) (p : Proc), (start (Storage.init presize scripts)).procs[i]? = some p → p.results = [] := by
+    intro i p hp
+    simp only [start, Storage.init, List.map_map, List.getElem?_map, Option.map_eq_some_iff] at hp
+    obtain ⟨sc, _, rfl⟩ := hp
+    simp [mkProc]
+  have hno : ∀ (j k : Nat) (x : Op × Res), resultOf' scripts (start (Storage.init presize scripts)) j k ≠ some x := by
+    intro j k ⟨op, r⟩ h
+    rw [resultOf'_some] at h
+    obtain ⟨sc, p, _, h2, _, h4⟩ := h
+    rw [hres j p h2] at h4; simp at h4
+  refine ⟨?_, ?_, ?_, ?_⟩
+  · intro i p hp
+    have := hres i p hp
+    constructor <;> intro sc k <;> intros <;> simp_all
+  · intro i p hp
+    simp only [start, Storage.init, List.map_map, List.getElem?_map, Option.map_eq_some_iff] at hp
+    obtain ⟨sc, _, rfl⟩ := hp
+    exact LocC2.of_entry (fetch_entry _ rfl)
+  · intro g w off c t h
+    simp [start, Storage.init, List.getElem?_replicate] at h
+  · intro i k j k' g t t' h
+    exact absurd h (hno _ _ _)
+
+theorem reach_ABC {scripts : List (List Op)} (hnf : ∀ sc ∈ scripts, Op.flush ∉ sc) {presize : Nat} {s : St}
+    {sched : List Nat} (hr : run (start (init presize scripts)) sched = some s) :
+    InvA scripts s ∧ InvB s ∧ InvC scripts s :=
+  run_preserves (fun s => InvA scripts s ∧ InvB s ∧ InvC scripts s)
+    (fun _ _ _ h hs => ⟨h.1.step hs, h.2.1.step h.1 hs, h.2.2.step h.1 h.2.1 hs⟩)
+    ⟨InvA.init hnf presize, InvB.init presize scripts, InvC.init presize scripts⟩ hr
+
 end WindVerif.Storage
